@@ -78,6 +78,14 @@ func (w *scriptWriter) Write(p []byte) (int, error) {
 	return len(p), nil
 }
 
+// scriptStringWriter is a scriptWriter which also implements io.StringWriter, so that io.WriteString
+// (and anything else that looks for the method) takes the WriteString route; both routes share one script.
+type scriptStringWriter struct{ scriptWriter }
+
+func (w *scriptStringWriter) WriteString(s string) (int, error) {
+	return w.scriptWriter.Write([]byte(s))
+}
+
 type c15Renderer struct {
 	name string
 	to   func(t tabular.Table, w io.Writer) error
@@ -154,12 +162,20 @@ func c15Inject(c *Ctx, spec *gen.TableSpec, skipable bool, sample bool) {
 		// also: Render() must equal what RenderTo wrote
 		c.Rec.Eval(gen.Hash64(spec.Shape(), fmt.Sprint(textsOf(spec)), rd.name, fmt.Sprint(skipable)), n > 0)
 		for k := 1; k <= n; k++ {
-			for mode := 0; mode < 3; mode++ {
+			for mode := 0; mode < 6; mode++ {
+				kind := mode / 3 // 0: plain io.Writer; 1: a writer that also implements io.StringWriter
+				mode := mode % 3
 				cs.K, cs.Mode = k, c15ModeNames[mode]
 				w := &scriptWriter{k: k, mode: mode}
+				var dst io.Writer = w
+				if kind == 1 {
+					sw := &scriptStringWriter{scriptWriter{k: k, mode: mode}}
+					w, dst = &sw.scriptWriter, sw
+					cs.Mode += " (writer also implements io.StringWriter)"
+				}
 				var err error
 				c.Rec.Count("injections", 1)
-				panicked, val, stack := Guard(func() { err = rd.to(build(), w) })
+				panicked, val, stack := Guard(func() { err = rd.to(build(), dst) })
 				cls := formatClass(rd.name)
 				if panicked {
 					c.Rec.ViolateStack("panic-on-write-failure:"+cls+"@"+PanicSite(stack), fmt.Sprintf("%s panicked when write call %d of %d failed (%s): %v", rd.name, k, n, c15ModeNames[mode], val), cs, stack)
@@ -314,7 +330,7 @@ func init() {
 	register(&Prop{
 		ID:    "C15",
 		Level: "fault_enumeration",
-		Rule: "for each (table, renderer) the fault-free run counts N Write calls and records the reference bytes; then EVERY k in 1..N x 3 modes {fails from call k on, fails only at call k, accepts half of call k's bytes and returns an error} is injected through a scripted io.Writer (exhaustive per table and renderer). Renderers: csv, json, markdown, html, html with class/id/caption/row-class generator, text under every registered decoration. " +
+		Rule: "for each (table, renderer) the fault-free run counts N Write calls and records the reference bytes; then EVERY k in 1..N x 3 modes {fails from call k on, fails only at call k, accepts half of call k's bytes and returns an error} is injected through a scripted io.Writer and again through a scripted writer that also implements io.StringWriter (exhaustive per table and renderer). Renderers: csv, json, markdown, html, html with class/id/caption/row-class generator, text under every registered decoration. " +
 			"phase 0: 8 fixed tables chosen to reach every write site (header/no header/empty header/only header, separators leading/trailing/consecutive, ragged and zero-cell rows, multi-line cells, rows extended after attach, no columns) x {plain, JSON skipable default}; phase 1: random tables; phase 2 (thorough): the same renderers writing to a real file whose k-th write(2) fails with ENOSPC under strace -e inject (k random per case, 'only k' and 'from k on'). " +
 			"Distinct = distinct (table, renderer); non-trivial = the fault-free run makes at least one Write call.",
 		Assumptions: []string{
